@@ -261,6 +261,7 @@ fn main() {
          63 finals x 8 intermediates x parameter {none, 1, 25, 2^31-1}, then the same tail plus restore-cursor. \
          exhaustive_3_tokens: every sequence of 1..=3 tokens of the ~90-token control-function alphabet (the one C09 enumerates) on 80x25 and 2x2, each on a fresh screen and after two lines of text, ANSI emulation. \
          macro_chains: chains of 1..20000 distinct hex-encoded macros, macro k invoking macro k+1 through CSI or from inside a DCS string, ids from 0 / 50 / 10^6, then one invocation. \
+         macro_bodies: a hex-encoded macro that runs one token of the alphabet (or a reset / string terminator / DCS opener) and then invokes itself, through CSI or from inside a DCS, in four layouts. \
          Non-trivial: the stream contains >= 2 control lead-in bytes of its emulation AND touched the screen (row allocated, cursor moved or height grew); distinct by hash of (emulation,size,shape,bytes).",
     );
     eng.assume("built with overflow checks and debug assertions ON at opt-level 2 (profile `checked`): panics that only a debug build of a front end would hit count as well");
@@ -315,6 +316,40 @@ fn main() {
             let base = [0u32, 50, 1_000_000][((i / 14) % 3) as usize];
             let in_dcs = i / 42 == 1;
             Case { emu: 0, w: 80, h: 25, shape: 1, data: Bytes(stream::macro_chain(n, base, in_dcs)) }
+        },
+        check,
+        classify,
+    );
+    // a self-invoking macro whose body first runs one token of the control-function alphabet (resets, mode switches, margins ...):
+    // nothing a macro body does may defeat the nesting limit
+    let body_tokens: Vec<Vec<u8>> = {
+        let mut v: Vec<Vec<u8>> = stream::alphabet().iter().map(|t| stream::render(std::slice::from_ref(t), 80, 25, 9999)).collect();
+        for extra in [&b"\x1bc"[..], b"\x1b[!p", b"\x1b[0*z", b"\x1b\\", b"\x1bP", b"\x1b]8;;\x1b\\", b"\x18", b"\x1a"] {
+            v.push(extra.to_vec());
+        }
+        v
+    };
+    let n_body = body_tokens.len() as u64;
+    eng.enumerated_with_class(
+        PartCfg::new("macro_bodies", 0, 0).isolated().timeout_ms(30_000).heapcap_is_violation(false).exhaustive(true),
+        n_body * 4,
+        move |i| {
+            let tok = &body_tokens[(i % n_body) as usize];
+            let variant = i / n_body;
+            // body = token + self-invocation (variants 0, 1) or self-invocation + token + self-invocation (2, 3); odd variants invoke from inside a DCS
+            let invoke: &[u8] = if variant % 2 == 1 { b"\x1b\\\x1bP\x1b[1*z" } else { b"\x1b[1*z" };
+            let mut body = Vec::new();
+            if variant >= 2 {
+                body.extend_from_slice(invoke);
+            }
+            body.extend_from_slice(tok);
+            body.extend_from_slice(invoke);
+            let mut v = b"\x1bP1;0;1!z".to_vec();
+            for b in body {
+                v.extend_from_slice(format!("{b:02X}").as_bytes());
+            }
+            v.extend_from_slice(b"\x1b\\\x1b[1*zafter\r\n");
+            Case { emu: 0, w: 80, h: 25, shape: 1, data: Bytes(v) }
         },
         check,
         classify,
